@@ -255,13 +255,76 @@ def r_directive_mode_consumption(r, prog):
     r.floor(5)
 
 
+
+def r_selection_structure(r, prog):
+    """first true branch wins; selected nodes are processed in place, in order"""
+    P = 'slicec::parsers::preprocessor::grammar::'
+    ev = prog.fn(P + "Conditional::<'a>::evaluate")
+    evs = [c for c in ev.calls() if c.name() == 'evaluate' and not ev.blocks[c.bb].get('cleanup')]
+    if not evs:
+        raise AnchorMissing('condition evaluations in Conditional::evaluate')
+    bad = []
+    for br in branches_on_call(ev, lambda c: c.name() == 'evaluate'):
+        t = br['true']
+        reach = ev.reachable(t)
+        later = [c for c in evs if c.bb in reach]
+        rets = [i for i, b in enumerate(ev.blocks) if b['t']['k'] == 'return']
+        if later:
+            bad.append('another condition is evaluated after one was found true')
+    brs = branches_on_call(ev, lambda c: c.name() == 'evaluate')
+    if len(brs) == len(evs) and not bad:
+        r.ok('once a condition is true no later condition is evaluated: the first true branch is the one selected (%d conditions)' % len(evs))
+    else:
+        r.finding('later-branch-can-override', ev.span, 'Conditional::evaluate: %s (%d evaluations, %d of them branched on directly)' % ('; '.join(bad) or 'a condition result is not branched on directly', len(evs), len(brs)))
+    # the else block only after every condition was false
+    uo = [c for c in ev.calls() if c.name() in ('unwrap_or_default', 'unwrap_or', 'unwrap_or_else') and 'else_section' in vexpr(ev, c.args[0])]
+    if uo and all(not ev.edge_dominates(b['bb'], b['true'], uo[0].bb) for b in brs) and any(ev.edge_dominates(b['bb'], b['false'], uo[0].bb) for b in brs):
+        r.ok('the else block is taken only when no condition was true')
+    else:
+        r.finding('else-selection', ev.span, 'the else block is not selected exactly when every condition was false')
+    pn = prog.fn(P + 'process_nodes')
+    loops = pn.natural_loops()
+    its = [c for c in pn.calls() if c.name() == 'next' and vexpr(pn, c.args[0]) == 'into_iter(arg1)']
+    if len(loops) == 1 and len(its) == 1 and its[0].bb in loops[0][1]:
+        body = loops[0][1]
+        elem = 'next(into_iter(arg1)) as Some.0'
+        acts = {}
+        for c in pn.calls():
+            if pn.blocks[c.bb].get('cleanup') or c.bb not in body:
+                continue
+            if c.name() in ('push', 'insert', 'remove', 'process_nodes', 'evaluate'):
+                acts.setdefault(c.name(), []).append([vexpr(pn, a) for a in c.args])
+        want = {
+            'push': [['arg2', elem + ' as SourceBlock.0']],
+            'insert': [['arg3.defined_symbols', 'to_owned(%s as DefineDirective.0)' % elem]],
+            'remove': [['arg3.defined_symbols', elem + ' as UndefineDirective.0']],
+            'evaluate': [[elem + ' as Conditional.0', 'arg3.defined_symbols']],
+            'process_nodes': [['evaluate(%s as Conditional.0,arg3.defined_symbols)' % elem, 'arg2', 'arg3']],
+        }
+        if acts == want:
+            r.ok('the node list is walked once, front to back; each node acts at its own position; the nodes selected by a conditional are processed (recursively) before the next sibling')
+        else:
+            r.finding('nodes-not-processed-in-place', pn.span, 'process_nodes performs %s inside its loop; expected %s' % (acts, want))
+        outside = [c.name() for c in pn.calls() if c.name() in ('push', 'insert', 'remove', 'extend', 'append', 'push_back', 'push_front') and c.bb not in body and not pn.blocks[c.bb].get('cleanup')]
+        if outside:
+            r.finding('nodes-deferred', pn.span, 'process_nodes also performs %s outside the walk' % outside)
+    else:
+        r.finding('nodes-walk', pn.span, 'process_nodes does not walk its node list with one loop over into_iter(nodes) (%d loops, %d iterators): nodes may be deferred or reordered' % (len(loops), len(its)))
+    r.floor(3)
+
+
+def r_lexer_preconditions(r, prog):
+    guards.evaluate(r, prog, rule_scopes.guards_preprocessor_lexer, 'guards_preprocessor_lexer.json', 50)
+
 def run(ctx):
     prog = ctx.prog
     ctx.run_rule('C06.1', 'T10', 'symbols are per file', perfile.r_symbols_per_file, prog)
     ctx.run_rule('C06.2a', 'T13', 'evaluation semantics of directives and expressions (precondition ledger)', r_evaluation_semantics, prog)
+    ctx.run_rule('C06.2d', 'T3', 'first true branch wins; selected nodes are processed in place and in order', r_selection_structure, prog)
     ctx.run_rule('C06.2b', 'T1', 'defined_symbols is written only by process_nodes', r_symbols_single_writer, prog)
     ctx.run_rule('C06.2c', 'T6', 'keyword text -> token -> terminal -> production -> node tables agree', r_token_tables, prog, ctx.cache_dir)
     ctx.run_rule('C06.3', 'T3', 'positions survive the removal of directives and unselected lines', r_positions_survive, prog)
     ctx.run_rule('C06.4a', 'T3', 'parse errors and recovered errors are reported on every path', c01.r_parse_errors, prog)
     ctx.run_rule('C06.4b', 'T1', 'directive text is only consumed by tokenising; bad directive names are errors', r_directive_mode_consumption, prog)
     ctx.run_rule('C06.4c', 'T9', 'lexer progress and end-of-input state change', c01.r_lexer_eof_state, prog)
+    ctx.run_rule('C06.5', 'T13', 'conditions under which the preprocessor lexer consumes, returns and switches modes (precondition ledger)', r_lexer_preconditions, prog)
